@@ -36,7 +36,6 @@ BRACE_NUM_FEATURE = r"\{[^{}]*\d{19,}"
 BRACE_SEQ_FEATURE = r"\{[-+]?(\d+|[A-Za-z])\.\.[-+]?(\d+|[A-Za-z])\.\.[-+]?\d+\}"
 HEREDOC_FEATURE = r"<<"
 KNOWN_PANICS = [
-    ("wait_repolls_failed_background_job", r"^dep:tokio-[^/]*/src/runtime/task/core\.rs$", r"JoinHandle polled after completion", r"&[\s\S]*\bwait\b"),
     ("backquote_escape_span_boundary", r"brush-interactive/src/highlighting\.rs$", r"char boundary", r"`[^`]*\\"),
 ]
 HANG_EMPTY_TAG = re.compile(r"<<-?(''|\"\")?[ \t]+\Z")
@@ -122,6 +121,27 @@ def small_path():
     return _SMALL_PATH
 
 
+HARNESS_MEM_GB = 4
+
+
+def _run_vh_limited(lines, timeout):
+    """`lib.run_vh` with an address-space ceiling: a case that allocates without bound (a brace sequence
+    of 2^31 words on a tree that lacks the size check) must take down the harness process, not the machine."""
+    def limits():
+        lim = HARNESS_MEM_GB * 1024 ** 3
+        resource.setrlimit(resource.RLIMIT_AS, (lim, lim))
+        resource.setrlimit(resource.RLIMIT_CORE, (0, 0))
+    e = dict(os.environ)
+    e.update({"C01_WATCHDOG_MS": str(WATCHDOG_MS), "PATH": small_path()})
+    data = ("\n".join(lines) + "\n").encode("utf-8")
+    p = subprocess.run([os.path.join(lib.BIN, BIN)], input=data, stdout=subprocess.PIPE, stderr=subprocess.PIPE,
+                       timeout=timeout, env=e, preexec_fn=limits)
+    out = p.stdout.decode("utf-8", "replace").split("\n")
+    if out and out[-1] == "":
+        out.pop()
+    return p.returncode, out, p.stderr.decode("utf-8", "replace")
+
+
 def run_harness(lines, timeout=900):
     """Returns one response per line. A harness that exits early (watchdog → `HANG`, stack overflow,
     abort) is restarted on the remaining lines; the line it died on answers `HANG` or `DIED <how>`.
@@ -131,7 +151,7 @@ def run_harness(lines, timeout=900):
     rest = list(lines)
     restarts = 0
     while rest:
-        rc, got, err = lib.run_vh(BIN, rest, timeout=timeout, env={"C01_WATCHDOG_MS": str(WATCHDOG_MS), "PATH": small_path()})
+        rc, got, err = _run_vh_limited(rest, timeout)
         if len(got) >= len(rest):
             out.extend(got[:len(rest)])
             break
@@ -178,7 +198,7 @@ STRS = ["", "a", "abc", "h\u00e9llo", "\u65e5\u672c\u8a9e", "a b\tc", "e\u0301x"
 ARITH_OPS = ["+", "-", "*", "/", "%", "**", "<<", ">>", "&", "|", "^", "<", ">", "<=", ">=", "==", "!=", "&&", "||", ","]
 ARITH_VALS = [0, 1, -1, 2, -2, 3, 63, 64, 65, -63, -64, 2 ** 31, 2 ** 32, -(2 ** 31), 2 ** 62, MAX, MAX - 1, MIN, MIN + 1]
 BRACE_NUMS = ["0", "1", "-1", "5", "-5", "+3", "007", "-0", str(MAX), str(MAX - 1), str(MAX - 4), str(-MAX), str(-MAX + 1), str(-MAX + 4),
-              str(2 ** 63), str(-(2 ** 63)), str(2 ** 64), "99999999999999999999", str(2 ** 31)]
+              str(2 ** 63), str(-(2 ** 63)), str(2 ** 64), "99999999999999999999", str(2 ** 31), str(2 ** 31 - 3), str(2 ** 31 - 2)]
 BRACE_INCS = ["-", "0", "1", "-1", "2", "-2", "3", "7", "200", str(2 ** 31), str(2 ** 32), str(2 ** 32 + 1), str(MAX), str(-MAX),
               str(2 ** 63), str(-(2 ** 63)), "99999999999999999999"]
 CHAR_INCS = ["-", "0", "1", "-1", "2", "-3", "25", "26", "64", "65", "66", "90", "96", "97", "98", "121", "122", "123", "200",
@@ -186,6 +206,7 @@ CHAR_INCS = ["-", "0", "1", "-1", "2", "-3", "25", "26", "64", "65", "66", "90",
              str(2 ** 63), "99999999999999999999"]
 LETTERS = ["a", "b", "e", "m", "z", "A", "B", "Z", "M"]
 MAX_SEQ = 3000
+SEQ_LIMIT = 2 ** 31 - 3   # INT_MAX - 2: a numeric sequence with more elements is not expanded (word stays literal), as in bash
 
 
 def _num(t):
@@ -236,7 +257,8 @@ def hot_cases(ctx):
         for e in BRACE_NUMS:
             for i in BRACE_INCS:
                 c = brace_count(s, e, i)
-                if c is not None and c > MAX_SEQ:
+                if c is not None and MAX_SEQ < c <= SEQ_LIMIT:
+                    # expanded for real: too many words to materialise in a test
                     ctx.bucket("brace_num_skipped_huge_count")
                     continue
                 word = "{%s..%s%s}" % (s, e, "" if i == "-" else ".." + i)
@@ -675,6 +697,14 @@ def explore_inproc(ctx):
             texts.append(("exh%d" % k, "COMPL", s))
     for a in PROMPT_BITS:
         texts.append(("prompt1", "PROMPT", a))
+    # strftime formats inside \D{…}: every string up to length 3 over conversion syntax AND multi-byte letters
+    # (a `%` specification may be ended by any alphabetic character; found missing by seed C01-2)
+    fmt_alpha = ["%", "-", "5", "Y", "z", ":", " ", "}", "\u00e9", "\u65e5", "\U0001f600", "\u0301"]
+    for k in (1, 2, 3):
+        for t in itertools.product(fmt_alpha, repeat=k):
+            f = "".join(t)
+            if "%" in f:
+                texts.append(("strftime%d" % k, "PROMPT", "\\D{" + f + "}"))
     # nesting, every depth up to 64
     for d in list(range(1, 65)):
         for _ in range(ctx.size(2, 8)):
@@ -783,7 +813,7 @@ def unsafe_count(text):
             continue
         if a < MIN or a > MAX or b < MIN or b > MAX or inc > 2 ** 63:
             continue
-        if abs(b - a) // (inc or 1) > 5000:
+        if 5000 < abs(b - a) // (inc or 1) + 1 <= SEQ_LIMIT:
             return True
     return False
 
@@ -1117,9 +1147,6 @@ def explore_binary(ctx):
                 if o["how"] == "timeout":
                     ctx.bucket("binary_both_shells_time_out")
                     continue
-        if r["how"] == "signal" and r["rc"] == -13 and re.search(r"exec \{\w+\}>&-", s):
-            ctx.known_or_violation("exec_varfd_close_then_sigpipe", "brush is killed by SIGPIPE", case)
-            continue
         if nviol < 25:
             nviol += 1
             ctx.violation("brush does not end in a status: %s (rc %s)" % (r["how"], r["rc"]), case)
@@ -1185,7 +1212,7 @@ def run(ctx):
         "expansion are explored by fuzzing, not proved",
         "mutated suite scripts are parsed/highlighted/completed but never executed (they contain rm, kill, exec …); executed scripts come from the "
         "generator's own vocabulary",
-        "numeric brace ranges spanning more than 5000 words, printf widths and loop bounds are kept small in generated scripts (resource use, clause brace_sequence_unbounded)",
+        "numeric brace ranges spanning more than 5000 words, printf widths and loop bounds are kept small in generated scripts (resource use; beyond INT_MAX-2 elements the word stays literal, as in bash)",
         "a timeout that bash shows as well is the script's own meaning, not a hang of brush",
     ]
 
